@@ -237,7 +237,15 @@ def run_resume_larger(case):
     return res
 
 
-KINDS = {"session": run_session12, "resume_larger": run_resume_larger, "pipe": run_pipe, "pipe1": run_pipe1, "threshold": run_threshold}
+def run_duo12(case):
+    """Two samplers alive in one process, every interleaving of iterations and queries: posterior() weights / evidence / trimmed posterior of each
+    refer to its own stored history after every operation."""
+    from mc import session
+    return session.run_duo(case, lambda: [], oracle=session.accessor_oracle,
+                           key_pred=lambda k: k.startswith("session:posterior") or k.startswith("session:evidence") or k.startswith("session:trim"))
+
+
+KINDS = {"duo": run_duo12, "session": run_session12, "resume_larger": run_resume_larger, "pipe": run_pipe, "pipe1": run_pipe1, "threshold": run_threshold}
 
 FACTORS = [
     ("sample", ["tpcn", "rwm"]),
@@ -277,6 +285,9 @@ def plan(ctx):
     ses = [{"kind": "session", "cfg": dict(scfg, resample=rs), "base": ctx.seed, "depth": 9, "patterns": [sh, 4]} for rs in ("mult", "syst") for sh in range(4)]
     ses += [{"kind": "resume_larger", "cfg": dict(sample=k, clustering=cl, n_particles=16, n_total=48), "base": ctx.seed} for k in ("tpcn", "rwm") for cl in (False, True)]
     ctx.explore("sessions-and-resume", ses)
+    duo = [{"kind": "duo", "cfg": dict(scfg, **a), "cfg_b": b, "base": ctx.seed, "depth": 4 if th else 3, "shard": [sh, 2]}
+           for a, b in (({}, {}), ({"resample": "syst"}, {"eval": "scalar", "vv": 0.5}), ({"d": 2, "clustering": True}, {"d": 2, "clustering": True, "target": "bimodal"})) for sh in range(2)]
+    ctx.explore("two-samplers-interleaved", duo)
     agg = ctx.explore("terminal-states", cases)
     if agg.extra.get("run_cap_hit"):
         ctx.cap(f"per-configuration run cap hit in {agg.extra['run_cap_hit']} configurations (0-deviation run and the earliest 1-deviation runs complete)")
